@@ -62,6 +62,10 @@ def configs(tier):
         for lp in [("x", "y"), ("x", "x")]:
             out.append(dict(key=f"combined,{comp},labels={lp}", sub="combined", comp=comp, labels=list(lp), cost=60))
     out.append(dict(key="combined,default,labels=(None, 'x')", sub="combined", comp="default", labels=[None, "x"], cost=60))
+    # histories on ONE dissimilarity object: used on a continuum, the continuum gains a unit whose new label sorts between the
+    # existing ones (its category set changes in place), used again; then used on another continuum
+    for dname in ("absolute", "combined"):
+        out.append(dict(key=f"{dname},object-reused-after-the-continuum-gained-a-category", sub="reuse", dissim=dname, cost=80))
     return out
 
 
@@ -316,6 +320,36 @@ def harness(cfg, ns):
             obls.append(Obl("combined:d==alpha*pos+beta*cat(one delta)", cmp(D.d(u1, u2), want, beta * de), rz))
             obls.append(Obl("combined:d_mat==d", core.eq(D.d_mat(a1, a2), D.d(u1, u2)), rz))
             obls += sym_props("combined", D.d_mat, D.d, a1, a2, u1, u2, rz)
+        elif sub == "reuse":
+            alpha, beta = ctx.fresh("alpha", lo=0), ctx.fresh("beta", lo=0)
+            E.update(alpha=alpha, beta=beta)
+            D = ds.AbsoluteCategoricalDissimilarity(delta_empty=de) if cfg["dissim"] == "absolute" else \
+                ds.CombinedCategoricalDissimilarity(alpha=alpha, beta=beta, delta_empty=de)
+            SEGS = {"a": (0, 4), "c": (1, 5), "b": (2, 7), "d": (3, 5)}
+
+            def check_all(c, tag):
+                ua = D._build_arrays_continuum(c)
+                names = list(c._annotations.keys())
+                for i, u in enumerate(c._annotations[names[0]]):
+                    for j, v in enumerate(c._annotations[names[1]]):
+                        cat = de if u.annotation != v.annotation else 0
+                        if cfg["dissim"] == "absolute":
+                            want = cat
+                        else:
+                            want = alpha * common.pos_formula((u.segment.start, u.segment.end), (v.segment.start, v.segment.end), de) + beta * cat
+                        obls.append(Obl(f"reuse[{tag}]: d_mat==formula", core.eq(D.d_mat(ua[0][i], ua[1][j]), want), rz))
+                        obls.append(Obl(f"reuse[{tag}]: d==formula", core.eq(D.d(u, v), want), rz))
+            c = ns.co.Continuum()
+            c.add(ANN[0], Segment(*SEGS["a"]), "a")
+            c.add(ANN[1], Segment(*SEGS["c"]), "c")
+            check_all(c, "first use")
+            c.add(ANN[0], Segment(*SEGS["b"]), "b")            # 'b' sorts between 'a' and 'c': every index after it shifts
+            check_all(c, "same continuum, one more category")
+            c2 = ns.co.Continuum()
+            c2.add(ANN[0], Segment(*SEGS["b"]), "b")
+            c2.add(ANN[0], Segment(*SEGS["d"]), "d")
+            c2.add(ANN[1], Segment(*SEGS["c"]), "c")
+            check_all(c2, "another continuum, overlapping labels")
         else:
             raise ValueError(sub)
         ctx.notes["inputs"] = [v for v in E.values() if isinstance(v, SymNum)] + [x for v in E.values() if isinstance(v, list) for x in v if isinstance(x, SymNum)] \
@@ -422,6 +456,36 @@ def replay(case):
                     want = abs(posd[x] - posd[y]) / mx * de
                     if not close(dm, want) or not close(dd, want):
                         bad.append(f"({x},{y}): d_mat={dm} d={dd} documented={want}")
+        elif kind == "reuse":
+            al, be = _F(case["alpha"]), _F(case["beta"])
+            D = pa.AbsoluteCategoricalDissimilarity(delta_empty=de) if cfg["dissim"] == "absolute" else pa.CombinedCategoricalDissimilarity(alpha=al, beta=be, delta_empty=de)
+            SEGS = {"a": (0, 4), "c": (1, 5), "b": (2, 7), "d": (3, 5)}
+
+            def check_all(c, tag):
+                ua = D._build_arrays_continuum(c)
+                names = list(c.annotators)
+                for i, u in enumerate(c._annotations[names[0]]):
+                    for j, v in enumerate(c._annotations[names[1]]):
+                        cat = de * (u.annotation != v.annotation)
+                        if cfg["dissim"] == "absolute":
+                            want = cat
+                        else:
+                            r = (abs(u.segment.start - v.segment.start) + abs(u.segment.end - v.segment.end)) / (u.segment.duration + v.segment.duration)
+                            want = al * r * r * de + be * cat
+                        dm, dd = float(D.d_mat(ua[0][i], ua[1][j])), float(D.d(u, v))
+                        if not close(dm, want) or not close(dd, want):
+                            bad.append(f"{tag}: ({u.annotation},{v.annotation}) d_mat={dm} d={dd} documented={want}")
+            c = pa.Continuum()
+            c.add(ANN[0], Segment(*SEGS["a"]), "a")
+            c.add(ANN[1], Segment(*SEGS["c"]), "c")
+            check_all(c, "first use")
+            c.add(ANN[0], Segment(*SEGS["b"]), "b")
+            check_all(c, "same continuum, one more category")
+            c2 = pa.Continuum()
+            c2.add(ANN[0], Segment(*SEGS["b"]), "b")
+            c2.add(ANN[0], Segment(*SEGS["d"]), "d")
+            c2.add(ANN[1], Segment(*SEGS["c"]), "c")
+            check_all(c2, "another continuum, overlapping labels")
         elif kind == "precomputed_d":
             return dict(reproduced=None, detail="no realiser for symbolic matrices")
         elif kind in ("levenshtein", "levenshtein_class"):
